@@ -501,6 +501,15 @@ func (fr *Frame) typeAssert(st *State, i *ssa.TypeAssert) Value {
 	x := fr.get(st, i.X)
 	iv, ok := x.(*IfaceV)
 	if !ok || iv.T == nil {
+		if tc := fr.topContract(); tc != nil && tc.Options["typed-pool"] != "" && !i.CommaOk {
+			if _, isIface := i.AssertedType.Underlying().(*types.Interface); !isIface {
+				// "option typed-pool": the interface value an opaque call returned (sync.Pool.Get) holds a value of
+				// the asserted type - an arbitrary one (for a pointer: a fresh object with arbitrary contents)
+				fr.v.assume("the value an opaque call returns as an interface has the dynamic type the code asserts (option typed-pool: a sync.Pool whose New function returns that type); its contents are arbitrary")
+				fr.v.fresh++
+				return fr.v.symValue(fmt.Sprintf("pool!%d", fr.v.fresh), i.AssertedType, false)
+			}
+		}
 		unsup("type assertion on unknown dynamic type")
 	}
 	okv := types.Identical(iv.T, i.AssertedType)
@@ -755,6 +764,25 @@ func (fr *Frame) unop(st *State, i *ssa.UnOp) Value {
 			return fr.loadArrView(st, ap)
 		}
 		return fr.load(st, p)
+	case token.ARROW:
+		// a receive under "option channels-as-log" + "option go-as-call": the goroutines were executed where they
+		// were started, so whatever the receive waits for has happened; only receives whose value is discarded
+		// (struct{} signalling channels) are accepted - the value received is not modelled
+		if tc := fr.topContract(); tc != nil && tc.Options["channels-as-log"] != "" && tc.Options["go-as-call"] != "" && !i.CommaOk {
+			used := false
+			if refs := i.Referrers(); refs != nil {
+				for _, r := range *refs {
+					if _, dbg := r.(*ssa.DebugRef); !dbg {
+						used = true
+					}
+				}
+			}
+			if !used {
+				fr.v.assume("a receive from a signalling channel is a no-op (options channels-as-log and go-as-call: the goroutine that sends or closes was executed at its go statement)")
+				return fr.v.zeroValue(i.Type())
+			}
+		}
+		unsup("channel receive in %s", fr.fn.Name())
 	case token.NOT:
 		return F.Not(fr.term(st, i.X))
 	case token.SUB:
@@ -839,6 +867,11 @@ func (fr *Frame) copySlice(st *State, s *SliceV, dst types.Type) Value {
 
 func (fr *Frame) valueEq(st *State, a, b Value, t types.Type) *Term {
 	F := fr.v.F
+	if y, ok := b.(*IteV); ok {
+		if _, isIte := a.(*IteV); !isIte {
+			return F.Ite(y.C, fr.valueEq(st, a, y.A, t), fr.valueEq(st, a, y.B, t))
+		}
+	}
 	switch x := a.(type) {
 	case *Term:
 		if y, ok := b.(*Term); ok {
